@@ -202,6 +202,14 @@ def run(ctx):  # noqa: C901
     from .npa_common import check_npa
     check_npa(ctx)
 
+    # complex referee operators: every matrix variable of every programme is Hermitian, not real symmetric (cvxpy: PSD=True and
+    # symmetric=True are REAL symmetric)
+    from ..sdp import r_hermitian_vars
+    ctx.rule("R-DTYPE", "matrix variables of programmes over complex operators are declared hermitian=True; PSD=True / symmetric=True make them real")
+    for meth in ("unentangled_value", "nonsignaling_value", "commuting_measurement_value_upper_bound"):
+        r_hermitian_vars(ctx, eg.methods[meth], Skeleton(m, eg.methods[meth]))
+    r_hermitian_vars(ctx, oa, ska)
+    r_hermitian_vars(ctx, ob, skb)
     _hedging(ctx)
     _clone(ctx)
 
@@ -275,6 +283,8 @@ def _hedging(ctx):
             ctx.ob("R-SDP", pr, f"{nm} primal sense == {want}", pp.sense == want, pp.sense or "?", pp.node)
     for f in (mp, np_):
         sk, p, cons = _prog(m, f)
+        from ..sdp import r_hermitian_vars
+        r_hermitian_vars(ctx, f, sk)
         ok, det, ndd = psd_ok(sk, "x_var")
         ctx.ob("R-SDP", f, "X >= 0", ok, det, ndd)
         pt = [c for c in cons if c.rel == "==" and "partial_trace" in repr(c.sides())]
@@ -296,6 +306,8 @@ def _hedging(ctx):
         ctx.ob("R-COV", f, "objective == Re Tr(Dagger(Q) X)", bool(okd), "<Q, X>" if okd else f"objective {show(ot)[:70] if ot else '?'}")
     for f in (md, nd):
         sk, p, cons = _prog(m, f)
+        from ..sdp import r_hermitian_vars
+        r_hermitian_vars(ctx, f, sk)
         # both num_reps branches constrain the same conjugated operator against Q
         brs = [c for c in sk.cons if c.rel in (">>", "<<")]
         rels = {c.rel for c in brs}
@@ -332,6 +344,9 @@ def _clone(ctx):
     pp = m.func("optimal_clone.primal_problem")
     dp = m.func("optimal_clone.dual_problem")
     (skp, p1, c1), (skd, p2, c2) = _prog(m, pp), _prog(m, dp)
+    from ..sdp import r_hermitian_vars
+    r_hermitian_vars(ctx, pp, skp)
+    r_hermitian_vars(ctx, dp, skd)
     if p1 and p2:
         ctx.ob("R-SDP", pp, "S5 primal max / dual min", (p1.sense, p2.sense) == ("max", "min"), f"{p1.sense}/{p2.sense}")
     ok, det, nd = psd_ok(skp, "x_var")
@@ -350,22 +365,74 @@ def _clone(ctx):
     _no_entrywise_real(ctx, dp)
     from ..rules import r_dtype_default_buffer
     r_dtype_default_buffer(ctx, oc, "states")
-    # traced subsystems: 1-based list, multiples of 3 removed, decremented once
-    N = Normalizer(m, pp, inline=False)
-    decs = 0
-    start = None
-    for n in walk_no_nested(pp.node):
-        if isinstance(n, ast.Assign) and isinstance(n.targets[0], ast.Name) and n.targets[0].id == "sys":
-            t = N(n.value)
-            for s in subterms(t):
-                if isinstance(s, tuple) and s and s[0] == "call" and s[1] == "builtins.range" and len(s[2]) >= 2 and s[2][0][0] == "c":
-                    start = s[2][0][1]
-            if t[0] == "comp" and t[2][0][0] == "+" and ("c", -1) in t[2][0][1]:
-                decs += 1
-            if t[0] == "comp" and t[2][0][0] == "+" and ("c", 1) in t[2][0][1]:
-                decs -= 1
-    ctx.ob("R-BASE", pp, "traced subsystem list converted to 0-based exactly once", start is not None and start - decs == 0,
-           f"list starts at {start}, decremented {decs} time(s)" if start is not None and start - decs == 0 else f"list starts at {start} and is shifted by {-decs}: subsystem numbering for partial_trace is off")
+    # layout: optimal_clone permutes Q to blocks by kind (Y_1..Y_n, Z_1..Z_n, X_1..X_n); the dual puts Y on the last block, so the
+    # primal must trace out exactly the first 2n subsystems of that ordering (F36: it used the interleaved positions of the
+    # unpermuted operator, which only coincide for n = 1 and are equivalent only for real ensembles)
+    from ..rules import value_at
+    from ..symshape import monomial
+    N = Normalizer(m, pp, inline=True)
+    okl, detl, nd = None, "partial_trace(x_var, sys, dim) not found in the primal", None
+    for c, cal in calls_from(m, pp, "partial_trace.partial_trace"):
+        b = m.bind(c, cal.func)
+        nd = c
+        st = N(b["sys"]) if isinstance(b.get("sys"), ast.AST) else None
+        if st is not None and st[0] == "n":
+            st = value_at(m, pp, st[1], c, Normalizer(m, pp, inline=False)) or st
+        detl = f"traced subsystems {show(st)[:80] if st else '?'} not recognised"
+        if st is not None:
+            st = N._subst_name(st, "num_spaces", ("c", 3)) if hasattr(N, "_subst_name") else st
+            rng = st[2][0] if st[0] == "call" and st[1] == "builtins.list" and st[2] else st
+            if rng[0] == "call" and rng[1] == "builtins.range" and len(rng[2]) == 1:
+                arg = rng[2][0]
+                from ..rules import _subst
+                arg = _subst(arg, "num_spaces", ("c", 3))
+                mm = monomial(N._mul([arg]) if arg[0] != "*" else arg) if arg[0] in ("*", "n", "c") else None
+                if mm is None and arg[0] == "*":
+                    mm = monomial(arg)
+                if mm is None:
+                    # (num_spaces - 1) * num_reps  with num_spaces = 3
+                    try:
+                        factors = list(arg[1]) if arg[0] == "*" else [arg]
+                        coef, rest = 1, []
+                        for x in factors:
+                            if x[0] == "c":
+                                coef *= x[1]
+                            elif x[0] == "+" and all(y[0] == "c" for y in x[1]):
+                                coef *= sum(y[1] for y in x[1])
+                            else:
+                                rest.append(x)
+                        mm = (coef, {repr(r_): 1 for r_ in rest})
+                    except Exception:  # noqa: BLE001
+                        mm = None
+                okl = mm is not None and mm[0] == 2 and list(mm[1]) == [repr(("n", "num_reps"))]
+                detl = "the first 2 * num_reps subsystems (the Y and Z blocks of the permuted ordering)" if okl else f"range({show(arg)}) is not the first 2 * num_reps subsystems"
+            elif rng[0] == "call" and rng[1] == "builtins.range" and len(rng[2]) >= 2 and rng[2][0] != ("c", 0):
+                okl = False
+                detl = f"traced subsystems start at {show(rng[2][0])}, not at the first subsystem: the kept block is not the last one (where the dual puts Y)"
+            elif st[0] == "comp" or "%" in repr(st) or "mod" in repr(st).lower():
+                okl = False
+                detl = ("the traced list keeps every third position (interleaved Y_k Z_k X_k layout), but the objective operator is permuted to blocks "
+                        "(Y.., Z.., X..) by pperm for num_reps > 1: the primal keeps the wrong spaces and disagrees with the dual for complex ensembles")
+    ctx.ob("R-LAYOUT", pp, "primal traces out the Y and Z blocks of the permuted ordering (first 2 * num_reps subsystems)", okl, detl, nd, required=okl is not None)
+    # the permutation built in optimal_clone groups the copies of each space: perm = [i + num_spaces * j]
+    okp = None
+    No = Normalizer(m, oc, inline=False)
+    for lp in walk_no_nested(oc.node):
+        if isinstance(lp, ast.For) and No(lp.iter) == ("call", "builtins.range", (("n", "num_spaces"),), ()) and isinstance(lp.target, ast.Name):
+            inner = [x for x in ast.walk(lp) if isinstance(x, ast.For) and x is not lp]
+            apps = [x for x in ast.walk(lp) if isinstance(x, ast.Call) and getattr(x.func, "attr", "") == "append" and x.args]
+            if inner and len(apps) == 2 and isinstance(inner[0].target, ast.Name):
+                jv = inner[0].target.id
+                first = No(apps[0].args[0])
+                second = No(apps[1].args[0])
+                iv = lp.target.id
+                # names that hold the outer index inside the loop body (`var = i`)
+                same = {iv} | {x.targets[0].id for x in ast.walk(lp) if isinstance(x, ast.Assign) and len(x.targets) == 1 and isinstance(x.targets[0], ast.Name)
+                               and isinstance(x.value, ast.Name) and x.value.id == iv}
+                stride = ("*", tuple(sorted([("n", jv), ("n", "num_spaces")], key=repr)))
+                okp = first == ("n", iv) and second[0] == "+" and len(second[1]) == 2 and stride in second[1] and \
+                    any(x[0] == "n" and x[1] in same for x in second[1]) and No(inner[0].iter) == ("call", "builtins.range", (("c", 1), ("n", "num_reps")), ())
+    ctx.ob("R-LAYOUT", oc, "pperm groups the n copies of each of the three spaces: perm = [i + 3 j]", okp, "blocks (Y.., Z.., X..)" if okp else "permutation construction changed" if okp is False else "permutation construction not recognised", required=okp is not None)
     # strategy flag and threading
     for callee in ("primal_problem", "dual_problem"):
         for p in ("q_a", "pperm", "num_reps"):
